@@ -60,9 +60,28 @@ def run(cfg, ops, impl='diskcache', seed=0, tid=1):
                 elif name == 'pop':
                     if impl == 'locmem':
                         r = c.get(a['k'], version=ver); c.delete(a['k'], version=ver)
+                    elif a.get('fx') or a.get('ft'):
+                        # DjangoCache extension: pop(..., expire_time=, tag=)
+                        r = c.pop(a['k'], version=ver, expire_time=bool(a.get('fx')), tag=bool(a.get('ft')))
+                        parts = list(r) if isinstance(r, tuple) else [r]
+                        if parts[0] is None:
+                            r = None
+                        else:
+                            vals_ = [parts[0]]
+                            i_ = 1
+                            if a.get('fx'):
+                                x_ = parts[i_] if i_ < len(parts) else 'absent'
+                                vals_.append(-1000000 if x_ is None else int(round(x_ - 2 ** 30)) if isinstance(x_, (int, float)) else -7777)
+                                i_ += 1
+                            if a.get('ft'):
+                                x_ = parts[i_] if i_ < len(parts) else 'absent'
+                                vals_.append(0 if x_ is None else int(x_[1:]) if isinstance(x_, str) and x_[:1] == 't' and x_[1:].isdigit() else -7777)
+                            ret = R('val', vals_)
+                            r = 'done'
                     else:
                         r = c.pop(a['k'], version=ver)
-                    ret = R('none') if r is None else R('val', [r])
+                    if r != 'done':
+                        ret = R('none') if r is None else R('val', [r])
                 elif name == 'get_many':
                     r = c.get_many(a['ks'], version=ver)
                     ret = R('pairs', [[k, r[k]] for k in a['ks'] if k in r])
@@ -144,6 +163,8 @@ def random_ops(rng, n):
             o = {'op': 'incr', 'a': {'k': k, 'd': rng.choice([1, 2, -1]), 'ver': ver}}
         elif r < 0.70:
             o = {'op': 'pop', 'a': {'k': k, 'ver': ver}}
+            if rng.random() < 0.5:
+                o['a'].update(fx=rng.randrange(2), ft=rng.randrange(2))
         elif r < 0.74:
             o = {'op': 'get_many', 'a': {'ks': rng.sample(KEYS, rng.randint(1, 3)), 'ver': ver}}
         elif r < 0.78:
